@@ -75,3 +75,9 @@ Proof.
     + unfold across, wv, ex_w, ex_l, side_at, ex_c, pl, nth_surf; cbn.
       unfold dot, vadd, vsub, vscale, vx, vy, vz; cbn. lra.
 Qed.
+
+Theorem example_all :
+  (forall i, (i < 6)%nat -> carries ex_u ex_w (pl ex_surfs i) (side_at ex_l i)) /\
+  (forall i, (i < 6)%nat -> sd ex_surfs i = planeSide RS ex_c (pl ex_surfs i) /\ sd ex_surfs i <> 0%Z) /\
+  hexLatticeBaseVectors RS ex_surfs = Ok [(3, -1, 0); (3, 1, 0); (0, 0, 4)].
+Proof. split; [exact ex_carries|split; [exact ex_sense|exact example_base_vectors]]. Qed.
